@@ -82,7 +82,7 @@ func ForEachDeco(m, maxDeco int, f func(deco []uint8)) {
 }
 
 // NumLeafForms is the number of operand-test forms of the manual.
-const NumLeafForms = 30
+const NumLeafForms = 34
 
 // LeafForm builds form f (0..NumLeafForms-1) on operand number k.
 func LeafForm(f, k int) *Leaf {
@@ -115,6 +115,19 @@ func LeafForm(f, k int) *Leaf {
 	}
 	name := fmt.Sprintf("V%d", k) + OperandSuffix(k)
 	op := "var(" + name + ")"
+	if f >= 30 {
+		// a var compared with the boolean constants: TRUE is 1, FALSE is 0, and the written operator is the one used
+		switch f {
+		case 30:
+			return &Leaf{Kind: machine.KVar, Name: name, Src: op + " == TRUE", Rel: machine.RelEQ, Const: 1}
+		case 31:
+			return &Leaf{Kind: machine.KVar, Name: name, Src: op + " != TRUE", Rel: machine.RelNE, Const: 1}
+		case 32:
+			return &Leaf{Kind: machine.KVar, Name: name, Src: op + " == FALSE", Rel: machine.RelEQ, Const: 0}
+		default:
+			return &Leaf{Kind: machine.KVar, Name: name, Src: op + " != FALSE", Rel: machine.RelNE, Const: 0}
+		}
+	}
 	f -= 16
 	switch f {
 	case 0:
